@@ -3,7 +3,7 @@
 import glob, json, re, subprocess, sys
 pid = sys.argv[1]
 base = subprocess.run(['/verif/tools/agent_prompt.py', pid], capture_output=True, text=True).stdout
-base = base.replace('/tmp/wt/', '/tmp/wt8/').replace('/tmp/seed/', '/tmp/seed8/')
+base = base.replace('/tmp/wt/', '/tmp/wt9/').replace('/tmp/seed/', '/tmp/seed9/')
 known = []
 for f in sorted(glob.glob('/verif/seeded/%s-*/meta.json' % pid)):
     m = json.load(open(f))
@@ -13,6 +13,6 @@ extra = '''
 Changes of the following kinds have ALREADY been collected for this property; do not repeat them or close variants of them - attack other clauses, other functions, or other mechanisms of the property:
 %s
 Do NOT use `git stash` (the stash is shared by all worktrees of the repository and other agents are working in sibling worktrees): to go back and forth between the clean and the changed tree, save your change with `git diff > file` and use `git apply file` / `git apply -R file` or `git checkout -- .`.
-Also avoid simply reverting a recent "fix:" commit of the repository (see `git -C /tmp/wt8/%s log --oneline | head -40`): those are known too.
+Also avoid simply reverting a recent "fix:" commit of the repository (see `git -C /tmp/wt9/%s log --oneline | head -40`): those are known too.
 ''' % ('\n'.join(known), pid)
 print(base.replace('For each change N in (1, 2) write', extra + '\nFor each change N in (1, 2) write'))
